@@ -124,6 +124,49 @@ fn main() {
             let samples: Vec<&Value> = cases.iter().step_by((cases.len() / 3).max(1)).take(3).collect();
             println!("{}", json!({"cases": cases.len(), "prop_mismatch": nprop, "model_drift": nmodel, "prop": prop, "model": model, "samples": samples}));
         }
+        ("replay", "scalars") => {
+            let cases = load_cases(&args[3]);
+            let mut prop: Vec<Value> = vec![];
+            let (mut nprop, mut skipped) = (0usize, 0usize);
+            let mut samples: Vec<Value> = vec![];
+            for (i, c) in cases.iter().enumerate() {
+                let (o, tag, skip) = vh::scalars::replay_int(c);
+                if skip { skipped += 1; }
+                if i % (cases.len() / 3).max(1) == 0 && samples.len() < 3 { samples.push(json!({"case": tag, "expect": c["expect"]})); }
+                if !o.prop.is_empty() { nprop += 1; if prop.len() < 40 { prop.push(json!({"case": c, "why": o.prop, "key": format!("scalars:{}", tag)})); } }
+            }
+            println!("{}", json!({"cases": cases.len(), "prop_mismatch": nprop, "model_drift": 0, "prop": prop, "model": [], "samples": samples, "counts": {"not_lexable_skipped": skipped}}));
+        }
+        ("replay", "scalarforms") => {
+            let cases = load_cases(&args[3]);
+            let seed: u64 = args.get(4).and_then(|s| s.parse().ok()).unwrap_or(0);
+            let nfloat: usize = args.get(5).and_then(|s| s.parse().ok()).unwrap_or(2000);
+            let mut prop: Vec<Value> = vec![];
+            let mut nprop = 0usize;
+            let mut runs = 0u64;
+            for c in &cases {
+                let (o, r) = vh::scalars::replay_form(c);
+                runs += r;
+                if !o.prop.is_empty() { nprop += 1; if prop.len() < 40 { prop.push(json!({"case": c, "why": o.prop, "key": format!("scalarforms:{}:{}", c["t"], c["it"])})); } }
+            }
+            let (fp, fr, fs) = vh::scalars::replay_floats(seed, nfloat);
+            nprop += fp.len();
+            prop.extend(fp.into_iter().take(20));
+            let samples: Vec<Value> = cases.iter().step_by((cases.len() / 2).max(1)).take(2).cloned().chain(fs.into_iter().map(|s| json!({"float_text": s}))).collect();
+            println!("{}", json!({"cases": cases.len() as u64 + fr, "prop_mismatch": nprop, "model_drift": 0, "prop": prop, "model": [], "samples": samples,
+                                   "counts": {"form_conversions": runs, "float_conversions": fr}}));
+        }
+        ("replay", "scalars-concrete") => {
+            let cases = load_cases(&args[3]);
+            let mut prop: Vec<Value> = vec![];
+            let mut nprop = 0usize;
+            for c in &cases {
+                let o = vh::scalars::replay_concrete(c);
+                if !o.prop.is_empty() { nprop += 1; if prop.len() < 40 { prop.push(json!({"case": c, "why": o.prop, "key": format!("scalars-concrete:{}:{}:{}:{}", c["t"], c["nz"], c["v"], c["quoted"])})); } }
+            }
+            let samples: Vec<&Value> = cases.iter().step_by((cases.len() / 3).max(1)).take(3).collect();
+            println!("{}", json!({"cases": cases.len(), "prop_mismatch": nprop, "model_drift": 0, "prop": prop, "model": [], "samples": samples}));
+        }
         ("record", "accum") => {
             let seed: u64 = args[3].parse().unwrap();
             let runs: usize = args[4].parse().unwrap();
